@@ -1,11 +1,14 @@
 package main
 
 import (
+	"context"
 	"fmt"
+	"io"
 	"sort"
 	"strings"
 	"unicode"
 
+	"github.com/sqlc-dev/doubleclick/parser"
 	"github.com/sqlc-dev/doubleclick/token"
 )
 
@@ -215,6 +218,39 @@ func runC17(w *W) {
 					w.Report(Finding{Kind: "keyword-as-name", Key: "keyword-as-name@" + p.name + "@" + sp, Input: fmt.Sprintf("%q", sql), InputHex: hexs([]byte(sql)), Detail: fail})
 				}
 				w.Count(p.name)
+			}
+		}
+		// long inputs through a reader that offers nothing but Read (no Len, no ReadByte): the name straddles the 4096-byte
+		// mark of the input, where a lexer that reads ahead in blocks has to stitch it together
+		for pi, p := range probes[:3] {
+			cs := strings.ToLower(sp)
+			for _, back := range []int{1, len(cs) / 2, len(cs) - 1} {
+				if back < 1 || back >= len(cs) {
+					continue
+				}
+				short := p.sql(cs)
+				at := strings.LastIndex(short, cs)
+				pad := 4096 - back - at - len("/**/ ")
+				if pad < 0 {
+					continue
+				}
+				sql := short[:7] + "/*" + strings.Repeat("p", pad) + "*/ " + short[7:]
+				w.Begin(idx, []byte(sql), p.name+"-long")
+				w.Eval([]byte(sql), true)
+				w.Count(p.name + "-long")
+				var out string
+				o := guard(func() (string, error) {
+					stmts, err := parser.Parse(context.Background(), struct{ io.Reader }{strings.NewReader(sql)})
+					if err != nil || len(stmts) != 1 {
+						return "", fmt.Errorf("err=%v statements=%d", err, len(stmts))
+					}
+					out = parser.Explain(stmts[0])
+					return "", nil
+				})
+				if o.Panicked || o.Err != nil || !containsLine(out, p.want(cs)) {
+					w.Report(Finding{Kind: "keyword-as-name", Key: "keyword-as-name@" + p.name + "-long@" + sp, Input: fmt.Sprintf("%q", trunc(sql, 60)+"…"+sql[len(sql)-40:]), InputHex: hexs([]byte(sql)),
+						Detail: fmt.Sprintf("probe %d with the name straddling byte 4096 (%d bytes before the mark), read through a plain io.Reader: panicked=%v err=%v, EXPLAIN lacks %q:\n%s", pi, back, o.Panicked, o.Err, p.want(cs), trunc(out, 400))})
+				}
 			}
 		}
 		if sp == "SELECT" || sp == "FROM" {
